@@ -273,6 +273,7 @@ func gossipCmd(out *cq.Out, seed uint64, tier string) {
 	fmt.Fprintf(f, "Definition R := Eval vm_compute in run_gossip_cases cases.\nPrint R.\n")
 	f.Close()
 	ttlChain(out, rng, seed)
+	deadPeer(out, rng, seed)
 	viewStress(out, seed)
 }
 
@@ -295,6 +296,12 @@ func (r *tap) Subscribe(id int, ch <-chan *gossip.Message) {
 			fwd <- m
 		}
 	}()
+}
+
+// an agent whose memberlist could not bind its port (taken by another process) has nothing to shut down
+func safeShutdown(a *gossip.Agent) {
+	defer func() { recover() }()
+	a.Shutdown()
 }
 
 func startAgent(name, role, bind string, join []string, mu *sync.Mutex, lg *[]int) (*gossip.Agent, error) {
@@ -322,7 +329,7 @@ func ttlChain(out *cq.Out, rng *cq.Rng, seed uint64) {
 		}
 		b, err := startAgent("vb", "monitor", fmt.Sprintf("127.0.0.1:%d", base+1), []string{fmt.Sprintf("127.0.0.1:%d", base)}, &mu, &wire)
 		if err != nil {
-			a.Shutdown()
+			safeShutdown(a)
 			continue
 		}
 		ok := false
@@ -335,8 +342,8 @@ func ttlChain(out *cq.Out, rng *cq.Rng, seed uint64) {
 			time.Sleep(50 * time.Millisecond)
 		}
 		if !ok {
-			a.Shutdown()
-			b.Shutdown()
+			safeShutdown(a)
+			safeShutdown(b)
 			continue
 		}
 		const initial = 4
@@ -347,8 +354,8 @@ func ttlChain(out *cq.Out, rng *cq.Rng, seed uint64) {
 		mu.Lock()
 		got := append([]int{}, wire...)
 		mu.Unlock()
-		a.Shutdown()
-		b.Shutdown()
+		safeShutdown(a)
+		safeShutdown(b)
 		out.Count("ttl_chain_deliveries", len(got))
 		out.Case("ttlchain", len(got) > 1)
 		sorted := append([]int{}, got...)
@@ -371,6 +378,77 @@ func ttlChain(out *cq.Out, rng *cq.Rng, seed uint64) {
 		return
 	}
 	out.Count("ttl_chain_skipped_infrastructure", 1)
+}
+
+// ---- a peer that died without leaving: three agents of three roles; the monitor's sockets go away (no Leave), and before the
+// failure detector notices, the origin publishes a batch with TTL 2. Each send picks one peer per role, so one destination
+// is unreachable; the healthy auditor must still see the batch at most TTL times, each time with a lower TTL.
+func deadPeer(out *cq.Out, rng *cq.Rng, seed uint64) {
+	for attempt := 0; attempt < 3; attempt++ {
+		base := 20000 + rng.Intn(20000)
+		var mu sync.Mutex
+		var wo, wa, wm []int
+		addr := func(k int) string { return fmt.Sprintf("127.0.0.1:%d", base+k) }
+		o, err := startAgent("vo", "publisher", addr(0), nil, &mu, &wo)
+		if err != nil {
+			continue
+		}
+		a, err := startAgent("va", "auditor", addr(1), []string{addr(0)}, &mu, &wa)
+		if err != nil {
+			safeShutdown(o)
+			continue
+		}
+		m, err := startAgent("vm", "monitor", addr(2), []string{addr(0)}, &mu, &wm)
+		if err != nil {
+			safeShutdown(o)
+			safeShutdown(a)
+			continue
+		}
+		ok := false
+		for i := 0; i < 200; i++ {
+			la, lm := o.VTopology().Get("auditor"), o.VTopology().Get("monitor")
+			if la != nil && la.Size() == 1 && lm != nil && lm.Size() == 1 {
+				ok = true
+				break
+			}
+			time.Sleep(50 * time.Millisecond)
+		}
+		if !ok {
+			safeShutdown(o)
+			safeShutdown(a)
+			safeShutdown(m)
+			continue
+		}
+		safeShutdown(m) // the monitor crashes: no Leave
+		const initial = 2
+		batch := &protocol.BatchSnapshots{Snapshots: []*protocol.SignedSnapshot{{Snapshot: &protocol.Snapshot{Version: 9}, Signature: []byte("d")}}}
+		payload, _ := batch.Encode()
+		o.Out.Publish(&gossip.Message{Kind: gossip.BatchMessageType, TTL: initial, Payload: payload})
+		time.Sleep(2500 * time.Millisecond)
+		mu.Lock()
+		got := append([]int{}, wa...)
+		mu.Unlock()
+		safeShutdown(o)
+		safeShutdown(a)
+		out.Count("dead_peer_deliveries", len(got))
+		out.Case("deadpeer", true)
+		if len(got) > initial {
+			sample := got
+			if len(sample) > 12 {
+				sample = sample[:12]
+			}
+			out.Violate("C18:dissemination-not-bounded-by-ttl:dead-peer", fmt.Sprintf("three agents, one of them dead but not yet detected: a batch published with TTL %d reached the healthy auditor %d times (TTLs of the first deliveries %v)", initial, len(got), sample),
+				map[string]interface{}{"seed": seed, "scenario": "a peer died without leaving", "deliveries": len(got)})
+		}
+		for _, t := range got {
+			if t >= initial {
+				out.Violate("C18:ttl-not-lowered-on-the-wire:dead-peer", fmt.Sprintf("a batch published with TTL %d arrived at the auditor with TTL %d", initial, t), map[string]interface{}{"seed": seed, "scenario": "a peer died without leaving"})
+				break
+			}
+		}
+		return
+	}
+	out.Count("dead_peer_skipped_infrastructure", 1)
 }
 
 // ---- concurrent joins/leaves and routing decisions: the view must stay a set of the members that joined and did not leave
